@@ -366,7 +366,13 @@ func sxgFull(args []string) error {
 			id++
 			sp := genSpec(r, ver, thorough || i%10 == 0)
 			sp.shared = i%2 == 1 // every other round signs through the one long-lived Signer, certificate and key changing under it
-			batch = append(batch, item{fmt.Sprintf("f%d", id), sp, kcs[(id+i)%3], prepareEx(sp)})
+			kc := kcs[(id+i)%3]
+			if sp.shared && i%4 == 1 {
+				// every second shared round keeps ONE key for the whole batch: the Signer's Algorithm (derived from the key on
+				// first use and kept) then makes three signatures in a row, each of which must be a signature over its own message
+				kc = kcs[i%3]
+			}
+			batch = append(batch, item{fmt.Sprintf("f%d", id), sp, kc, prepareEx(sp)})
 		}
 		for _, it := range batch {
 			if it.se.err == "" {
